@@ -25,7 +25,7 @@ MONITORS = ["c06"]
 def build_cases(ctx):
     n = ctx.budget(300, 6000)
     ng = (n * 2) // 5
-    cases = gwcheck.gen_cases(ctx, "c06", ng, mqtt_rate=0.15)
+    cases = scenarios_a.generic_cases(ctx, "c06", ng, mqtt_rate=0.15)
     for i, c in enumerate(cases):
         c["_persist"] = ctx.rng("c06p", i).random() < 0.8
         if c["_persist"]:
